@@ -2,30 +2,37 @@ import SaModel.Props.C04
 import SaModel.Props.C01Complete
 import SaModel.Lemmas.C04Accept
 import SaModel.Props.C03Traced
+import SaModel.Props.C03Codec
 /-
 C04, the acceptance half: **the schema traced from a type accepts every value of that type**.
 
-For a record type of the fragment `frag` (scalars, `()`, unit structs, Option, newtype structs, Vec, maps, structs,
-tuples / tuple structs / arrays), whatever `Trace.fromType` returns for it
+For a record type of the grammar `fragE` (scalars, `()`, unit structs, Option, newtype structs, Vec, maps, structs,
+tuples / tuple structs / arrays, ENUMS with unit / newtype / tuple / struct variants — as Union or, without data under
+`enums_without_data_as_strings`, as strings) whose enums have between 1 and 128 variants (`sized`), whatever
+`Trace.fromType` returns for it
 
 * is accepted by `ArrayBuilder::new` (`newRoot … = ok`, `newRoot_traced`), and the fresh builder has head room `2^31 - 1`;
-* satisfies C01's non-capacity condition `total` (`mappingFields_total`: no UnknownVariant placeholder, no union);
-* represents every well-typed value (`C04_interpRow`),
+* satisfies C01's non-capacity condition `total` (`mappingFields_total`: no UnknownVariant placeholder — `from_type` has
+  explored every variant —, unions with 1 … 128 variants whose first variant takes `serialize_default`);
+* represents every well-typed value in scope (`C04_interpRow`),
 
 so, by C01's completeness theorem (`Props.C01.runRows_complete`), every batch of well-typed values whose explicit size
 `Σ vsize (ser t v)` stays within `2^31 - 1` is accepted row by row: `runRows … = ok root` — and `build_arrays` cannot refuse
 (`Props.C01.toMarrow_complete`, i.e. `finish_total`; its typing hypothesis `typedFs` holds of every traced schema,
-`Props.C03.fromType_good`), so `to_marrow` succeeds (`C04_accept_partial`).
+`Props.C03.fromType_good`), so `to_marrow` succeeds (`C04_accept_traced`).  `from_type` itself succeeds on every walkable,
+mappable type within the pass budget (`C04_fromType_ok`): `C04_accept`, `C04_end_to_end_partial` have no hypothesis about
+its result.
 -/
 namespace SaModel.Props.C04
 open SaModel SaModel.Build SaModel.Spec SaModel.Roundtrip
 
 /-- the hypotheses of C01's completeness theorems (`runRows_complete`, `toMarrow_complete`) for the schema traced from a
-record type of the fragment and a batch of well-typed values within the capacity bound -/
+record type of the grammar and a batch of well-typed values in scope within the capacity bound -/
 theorem accept_hyps (c : Trace.Code) (O : Trace.Options) (ext : Ext) (n : String) (fs : TFields) (vs : List Val)
     (fields : List Field)
-    (h0 : O.overwrites = []) (hfrag : frag (.struct n fs) = true)
+    (h0 : O.overwrites = []) (hfrag : fragE (.struct n fs) = true) (hsz : sized (.struct n fs) = true)
     (hwt : ∀ v ∈ vs, wt (.struct n fs) v = true)
+    (hsc : ∀ v ∈ vs, inScopeO (viewOpts O) (.struct n fs) v = true)
     (hft : Trace.fromType c O (toTraceTy (.struct n fs)) = .ok fields)
     (hcap : ((vs.map (ser (.struct n fs))).map (vsize ext)).sum ≤ 2147483647) :
     ∃ root0, newRoot fields = .ok root0 ∧ fields.all coveredF = true ∧ totalFs (Fields.ofList fields) = true ∧
@@ -34,112 +41,197 @@ theorem accept_hyps (c : Trace.Code) (O : Trace.Options) (ext : Ext) (n : String
       ((vs.map (ser (.struct n fs))).map (vsize ext)).sum ≤ room root0 := by
   let t : Ty := .struct n fs
   let o := viewOpts O
-  have hn : noEnum t = true := frag_noEnum t hfrag
-  have hroot : mappingRoot o t = some fields := C04_fromType_mapping c O h0 t hn fields hft
-  have hfields : fields = (mappingFields o fs).toList := by
-    simp [t, mappingRoot, mappingDT] at hroot; exact hroot.symm
+  have hroot : mappingRoot o t = some fields := C04_fromType_mapping c O h0 t fields hft
+  have hfields : fields = (mappingFields o fs).toList := C04_fromType_fields c O h0 n fs fields hft
   have hofl : Fields.ofList fields = mappingFields o fs := by rw [hfields]; exact Fields.ofList_toList _
-  have hnf : noEnumFields fs = true := by simpa [t, noEnum] using hn
-  have hside := sideFs_toList (mappingFields o fs) (mappingFields_side o fs hnf)
+  have hside := sideFs_toList (mappingFields o fs) (mappingFields_side o fs)
   rw [← hfields] at hside
   obtain ⟨root0, hr0, hroom⟩ := newRoot_traced o n fs hfrag
   rw [← hfields] at hr0
   refine ⟨root0, hr0, List.all_eq_true.mpr fun f hf => (hside f hf).2, ?_, ?_, ?_, ?_⟩
-  · rw [hofl]; exact (mappingFields_total o fs hnf).1
+  · rw [hofl]; exact (mappingFields_total o fs (by simpa [sized] using hsz)).1
   · exact (Props.C03.fromType_good c O _ fields (by rw [h0]; intro kv hkv; cases hkv) hft).2
   · intro r hr
     obtain ⟨v, hv, rfl⟩ := List.mem_map.mp hr
-    exact ⟨(ser_ok t v (hwt v hv)).1, lv t v, C04_interpRow_partial ext o n fs v fields (frag_fragE _ hfrag) (hwt v hv)
-      (frag_inScope o _ _ hfrag) hroot⟩
+    exact ⟨(ser_ok t v (hwt v hv)).1, lvO o t v, C04_interpRow ext o n fs v fields hfrag (hwt v hv) (hsc v hv) hroot⟩
   · rw [hroom]; exact hcap
 
-/-- **Acceptance, row by row.**  `t = struct n fs` in `frag`, any tracing options without overwrites, any batch of
-well-typed values within the capacity bound: every `push` succeeds, and `to_marrow` is `build_arrays` of the final state.
-Hypotheses: `hsafe` (C01's `Safe` on the fresh builder; derived in `C04_accept_rows_nodict` when
-`string_dictionary_encoding` is off), `hcap` (explicit capacity bound: offsets are `i32`). -/
+/-- **Acceptance, row by row.**  `t = struct n fs` in `fragE`, enums with 1 … 128 variants, any tracing options without
+overwrites, any batch of well-typed values in scope within the capacity bound: every `push` succeeds, and `to_marrow` is
+`build_arrays` of the final state.  Hypotheses: `hsafe` (C01's `Safe`, as the decidable schema condition `safeFs`), `hcap`
+(explicit capacity bound: offsets are `i32`). -/
 theorem C04_accept_rows (c : Trace.Code) (O : Trace.Options) (ext : Ext) (n : String) (fs : TFields) (vs : List Val)
     (fields : List Field)
-    (h0 : O.overwrites = []) (hfrag : frag (.struct n fs) = true)
+    (h0 : O.overwrites = []) (hfrag : fragE (.struct n fs) = true) (hsz : sized (.struct n fs) = true)
     (hwt : ∀ v ∈ vs, wt (.struct n fs) v = true)
+    (hsc : ∀ v ∈ vs, inScopeO (viewOpts O) (.struct n fs) v = true)
     (hft : Trace.fromType c O (toTraceTy (.struct n fs)) = .ok fields)
-    (hsafe : ∀ root0, newRoot fields = .ok root0 → Safe root0)
+    (hsafe : safeFs (mappingFields (viewOpts O) fs) = true)
     (hcap : ((vs.map (ser (.struct n fs))).map (vsize ext)).sum ≤ 2147483647) :
     ∃ root, runRows ext fields (vs.map (ser (.struct n fs))) = .ok root ∧
       toMarrow ext fields (vs.map (ser (.struct n fs))) = (do let (arrs, _) ← buildArrays ext root; pure arrs) := by
-  obtain ⟨root0, hr0, hc, htot, _, hrows, hroom⟩ := accept_hyps c O ext n fs vs fields h0 hfrag hwt hft hcap
-  obtain ⟨root, h⟩ := Props.C01.runRows_complete ext fields _ root0 hc hr0 (hsafe root0 hr0) htot hrows hroom
+  obtain ⟨root0, hr0, hc, htot, _, hrows, hroom⟩ := accept_hyps c O ext n fs vs fields h0 hfrag hsz hwt hsc hft hcap
+  have hs := C04_safe_traced (viewOpts O) fs fields (C04_fromType_fields c O h0 n fs fields hft) hsafe
+  obtain ⟨root, h⟩ := Props.C01.runRows_complete ext fields _ root0 hc hr0 (hs root0 hr0) htot hrows hroom
   exact ⟨root, h, by rw [Props.C03.toMarrow_eq, h]; rfl⟩
 
-/-- **Acceptance, complete**: `to_marrow` SUCCEEDS on every batch of well-typed values of a record type of the fragment
-against the schema traced from the type (any tracing options without overwrites, dictionary-encoded strings included;
-explicit capacity bound).  `build_arrays` cannot refuse (`Props.C01.toMarrow_complete`: `finish_total` on the well-formed
-final state, the typing invariant `typedFs` of the traced schema by `Props.C03.fromType_good`).  `_partial`: `hsafe` is a
-hypothesis (derived in `C04_accept_nodict_partial` when `string_dictionary_encoding` is off) and so is `fromType … = ok`. -/
-theorem C04_accept_partial (c : Trace.Code) (O : Trace.Options) (ext : Ext) (n : String) (fs : TFields) (vs : List Val)
+/-- **Acceptance of the traced schema**: `to_marrow` SUCCEEDS on every batch of well-typed values in scope of a record type
+of the grammar against the schema `from_type` returned for it (any tracing options without overwrites, enums and
+dictionary-encoded strings included; explicit capacity bound).  `build_arrays` cannot refuse (`Props.C01.toMarrow_complete`:
+`finish_total` on the well-formed final state, the typing invariant `typedFs` of the traced schema by
+`Props.C03.fromType_good`). -/
+theorem C04_accept_traced (c : Trace.Code) (O : Trace.Options) (ext : Ext) (n : String) (fs : TFields) (vs : List Val)
     (fields : List Field)
-    (h0 : O.overwrites = []) (hfrag : frag (.struct n fs) = true)
+    (h0 : O.overwrites = []) (hfrag : fragE (.struct n fs) = true) (hsz : sized (.struct n fs) = true)
     (hwt : ∀ v ∈ vs, wt (.struct n fs) v = true)
+    (hsc : ∀ v ∈ vs, inScopeO (viewOpts O) (.struct n fs) v = true)
     (hft : Trace.fromType c O (toTraceTy (.struct n fs)) = .ok fields)
-    (hsafe : ∀ root0, newRoot fields = .ok root0 → Safe root0)
+    (hsafe : safeFs (mappingFields (viewOpts O) fs) = true)
     (hcap : ((vs.map (ser (.struct n fs))).map (vsize ext)).sum ≤ 2147483647) :
     ∃ arrs, toMarrow ext fields (vs.map (ser (.struct n fs))) = .ok arrs := by
-  obtain ⟨root0, hr0, hc, htot, htyped, hrows, hroom⟩ := accept_hyps c O ext n fs vs fields h0 hfrag hwt hft hcap
-  exact Props.C01.toMarrow_complete ext fields _ root0 hc hr0 (hsafe root0 hr0) htot htyped hrows hroom
+  obtain ⟨root0, hr0, hc, htot, htyped, hrows, hroom⟩ := accept_hyps c O ext n fs vs fields h0 hfrag hsz hwt hsc hft hcap
+  have hs := C04_safe_traced (viewOpts O) fs fields (C04_fromType_fields c O h0 n fs fields hft) hsafe
+  exact Props.C01.toMarrow_complete ext fields _ root0 hc hr0 (hs root0 hr0) htot htyped hrows hroom
 
-/-- `C04_accept_rows` with `Safe` derived, for tracing options without `string_dictionary_encoding` -/
-theorem C04_accept_rows_nodict (c : Trace.Code) (O : Trace.Options) (ext : Ext) (n : String) (fs : TFields) (vs : List Val)
-    (fields : List Field)
-    (h0 : O.overwrites = []) (hd : O.string_dictionary_encoding = false) (hfrag : frag (.struct n fs) = true)
+/-- **Acceptance, complete** — no hypothesis about the result of `from_type`: for a record type of the grammar that can be
+walked and mapped (the documented preconditions `Spec.walkable`, `mappable`) within the pass budget, `from_type` returns a
+schema and `to_marrow` accepts every batch of well-typed values in scope against it.  Remaining hypotheses, all decidable
+conditions on type × options or explicit bounds: `sized` (1 … 128 variants), `safeFs` (C01's exclusion), the budget, the
+capacity bound. -/
+theorem C04_accept (c : Trace.Code) (O : Trace.Options) (ext : Ext) (n : String) (fs : TFields) (vs : List Val)
+    (h0 : O.overwrites = []) (hfrag : fragE (.struct n fs) = true) (hsz : sized (.struct n fs) = true)
     (hwt : ∀ v ∈ vs, wt (.struct n fs) v = true)
-    (hft : Trace.fromType c O (toTraceTy (.struct n fs)) = .ok fields)
+    (hsc : ∀ v ∈ vs, inScopeO (viewOpts O) (.struct n fs) v = true)
+    (hw : Trace.Spec.walkable O "$" (toTraceTy (.struct n fs)) = true)
+    (hm : mappable (viewOpts O) (.struct n fs) = true)
+    (hb : Trace.Spec.passes (toTraceTy (.struct n fs)) ≤ O.from_type_budget)
+    (hsafe : safeFs (mappingFields (viewOpts O) fs) = true)
     (hcap : ((vs.map (ser (.struct n fs))).map (vsize ext)).sum ≤ 2147483647) :
-    ∃ root, runRows ext fields (vs.map (ser (.struct n fs))) = .ok root ∧
-      toMarrow ext fields (vs.map (ser (.struct n fs))) = (do let (arrs, _) ← buildArrays ext root; pure arrs) := by
-  have hn : noEnum (.struct n fs) = true := frag_noEnum _ hfrag
-  have hroot := C04_fromType_mapping c O h0 _ hn fields hft
-  have hfields : fields = (mappingFields (viewOpts O) fs).toList := by
-    simp [mappingRoot, mappingDT] at hroot; exact hroot.symm
-  exact C04_accept_rows c O ext n fs vs fields h0 hfrag hwt hft
-    (safe_of_traced (viewOpts O) hd fs (by simpa [noEnum] using hn) fields hfields) hcap
+    ∃ fields, Trace.fromType c O (toTraceTy (.struct n fs)) = .ok fields ∧
+      ∃ arrs, toMarrow ext fields (vs.map (ser (.struct n fs))) = .ok arrs :=
+  ⟨_, C04_fromType_ok c O h0 n fs hw hm hb,
+    C04_accept_traced c O ext n fs vs _ h0 hfrag hsz hwt hsc (C04_fromType_ok c O h0 n fs hw hm hb) hsafe hcap⟩
 
-/-- **Acceptance, complete, without dictionary encoding**: `C04_accept_partial` with `Safe` derived
-(`safe_of_traced`).  `_partial`: `fromType … = ok` is a hypothesis; with dictionary encoding on, `hsafe` is not derived
-(`C04_accept_partial`). -/
-theorem C04_accept_nodict_partial (c : Trace.Code) (O : Trace.Options) (ext : Ext) (n : String) (fs : TFields) (vs : List Val)
-    (fields : List Field)
-    (h0 : O.overwrites = []) (hd : O.string_dictionary_encoding = false) (hfrag : frag (.struct n fs) = true)
+/-- `C04_accept` with `Safe` derived, for tracing options that produce no Dictionary column -/
+theorem C04_accept_nodict (c : Trace.Code) (O : Trace.Options) (ext : Ext) (n : String) (fs : TFields) (vs : List Val)
+    (h0 : O.overwrites = []) (hd : O.string_dictionary_encoding = false) (he : O.enums_without_data_as_strings = false)
+    (hfrag : fragE (.struct n fs) = true) (hsz : sized (.struct n fs) = true)
     (hwt : ∀ v ∈ vs, wt (.struct n fs) v = true)
-    (hft : Trace.fromType c O (toTraceTy (.struct n fs)) = .ok fields)
+    (hsc : ∀ v ∈ vs, inScopeO (viewOpts O) (.struct n fs) v = true)
+    (hw : Trace.Spec.walkable O "$" (toTraceTy (.struct n fs)) = true)
+    (hm : mappable (viewOpts O) (.struct n fs) = true)
+    (hb : Trace.Spec.passes (toTraceTy (.struct n fs)) ≤ O.from_type_budget)
     (hcap : ((vs.map (ser (.struct n fs))).map (vsize ext)).sum ≤ 2147483647) :
-    ∃ arrs, toMarrow ext fields (vs.map (ser (.struct n fs))) = .ok arrs := by
-  have hn : noEnum (.struct n fs) = true := frag_noEnum _ hfrag
-  have hroot := C04_fromType_mapping c O h0 _ hn fields hft
-  have hfields : fields = (mappingFields (viewOpts O) fs).toList := by
-    simp [mappingRoot, mappingDT] at hroot; exact hroot.symm
-  exact C04_accept_partial c O ext n fs vs fields h0 hfrag hwt hft
-    (safe_of_traced (viewOpts O) hd fs (by simpa [noEnum] using hn) fields hfields) hcap
+    ∃ fields, Trace.fromType c O (toTraceTy (.struct n fs)) = .ok fields ∧
+      ∃ arrs, toMarrow ext fields (vs.map (ser (.struct n fs))) = .ok arrs :=
+  C04_accept c O ext n fs vs h0 hfrag hsz hwt hsc hw hm hb (C04_safeFs_nodict (viewOpts O) hd he fs) hcap
 
-/-- **C04 end to end, without dictionary encoding**: serialization against the traced schema succeeds, and reading
-everything back returns the batch, normalised (`norm` is the identity for `plainOpt` types: `C04_norm_eq_self`).
-Remaining hypotheses: `fromType … = ok fields`, the capacity bound, `hext`, `hphys`. -/
-theorem C04_end_to_end_nodict_partial (c : Trace.Code) (O : Trace.Options) (ext : Ext) (n : String) (fs : TFields) (vs : List Val)
+/-- **C04 end to end against a traced schema**: serialization against the schema `from_type` returned succeeds, and reading
+everything back returns the batch, normalised (`norm` is the identity for `plainOpt` types: `C04_norm_eq_self`). -/
+theorem C04_end_to_end_traced_partial (c : Trace.Code) (O : Trace.Options) (ext : Ext) (n : String) (fs : TFields) (vs : List Val)
     (fields : List Field)
-    (h0 : O.overwrites = []) (hd : O.string_dictionary_encoding = false) (hfrag : frag (.struct n fs) = true) (hne : fs ≠ .nil)
+    (h0 : O.overwrites = []) (hfrag : fragE (.struct n fs) = true) (hsz : sized (.struct n fs) = true) (hne : fs ≠ .nil)
     (hwt : ∀ v ∈ vs, wt (.struct n fs) v = true)
+    (hsc : ∀ v ∈ vs, inScopeO (viewOpts O) (.struct n fs) v = true)
     (hext : Lemmas.C03.ExtOK ext)
     (hft : Trace.fromType c O (toTraceTy (.struct n fs)) = .ok fields)
+    (hsafe : safeFs (mappingFields (viewOpts O) fs) = true)
     (hcap : ((vs.map (ser (.struct n fs))).map (vsize ext)).sum ≤ 2147483647) :
     ∃ arrs, toMarrow ext fields (vs.map (ser (.struct n fs))) = .ok arrs ∧
       ((∀ a ∈ arrs, Read.physical a = true) →
         readAll (toTarget (.struct n fs)) fields arrs = .ok (vs.map fun v => dvalOf (.struct n fs) (norm (.struct n fs) v))) := by
-  obtain ⟨arrs, htm⟩ := C04_accept_nodict_partial c O ext n fs vs fields h0 hd hfrag hwt hft hcap
-  refine ⟨arrs, htm, fun hphys => ?_⟩
-  have hn : noEnum (.struct n fs) = true := frag_noEnum _ hfrag
-  have hroot := C04_fromType_mapping c O h0 _ hn fields hft
-  have hfields : fields = (mappingFields (viewOpts O) fs).toList := by
-    simp [mappingRoot, mappingDT] at hroot; exact hroot.symm
-  exact C04_roundtrip_bulk_partial c O ext n fs vs fields arrs h0 hfrag hne hwt hext
-    (safe_of_traced (viewOpts O) hd fs (by simpa [noEnum] using hn) fields hfields) hphys hft htm
+  obtain ⟨arrs, htm⟩ := C04_accept_traced c O ext n fs vs fields h0 hfrag hsz hwt hsc hft hsafe hcap
+  exact ⟨arrs, htm, fun hphys =>
+    C04_roundtrip_bulk_partial c O ext n fs vs fields arrs h0 hfrag hne hwt hsc hext hsafe hphys hft htm⟩
+
+/-- **C04 end to end** — the property itself: for a record type of the grammar (enums included) with at least one field that
+can be walked and mapped within the pass budget, `from_type` returns a schema, serializing any batch of well-typed values in
+scope against it succeeds, and reading everything back returns the batch, normalised.
+`_partial`, exactly because of `hext` (the external chrono parsers return values in range: asked unconditionally by
+`Props.C03.C03_wf`, irrelevant for traced schemas, which have no temporal column) and `hphys` in the conclusion
+(`Read.physical`: the value count of a Dictionary column fits `i64` — true of any array in memory, not derivable for Lean's
+unbounded lists).  Everything else is a decidable condition on type × options (`fragE`, `sized`, `walkable`, `mappable`,
+`safeFs`), the documented exclusion `inScopeO` on the values, the pass budget and the capacity bound. -/
+theorem C04_end_to_end_partial (c : Trace.Code) (O : Trace.Options) (ext : Ext) (n : String) (fs : TFields) (vs : List Val)
+    (h0 : O.overwrites = []) (hfrag : fragE (.struct n fs) = true) (hsz : sized (.struct n fs) = true) (hne : fs ≠ .nil)
+    (hwt : ∀ v ∈ vs, wt (.struct n fs) v = true)
+    (hsc : ∀ v ∈ vs, inScopeO (viewOpts O) (.struct n fs) v = true)
+    (hext : Lemmas.C03.ExtOK ext)
+    (hw : Trace.Spec.walkable O "$" (toTraceTy (.struct n fs)) = true)
+    (hm : mappable (viewOpts O) (.struct n fs) = true)
+    (hb : Trace.Spec.passes (toTraceTy (.struct n fs)) ≤ O.from_type_budget)
+    (hsafe : safeFs (mappingFields (viewOpts O) fs) = true)
+    (hcap : ((vs.map (ser (.struct n fs))).map (vsize ext)).sum ≤ 2147483647) :
+    ∃ fields arrs, Trace.fromType c O (toTraceTy (.struct n fs)) = .ok fields ∧
+      toMarrow ext fields (vs.map (ser (.struct n fs))) = .ok arrs ∧
+      ((∀ a ∈ arrs, Read.physical a = true) →
+        readAll (toTarget (.struct n fs)) fields arrs = .ok (vs.map fun v => dvalOf (.struct n fs) (norm (.struct n fs) v))) := by
+  have hft := C04_fromType_ok c O h0 n fs hw hm hb
+  obtain ⟨arrs, htm, hread⟩ := C04_end_to_end_traced_partial c O ext n fs vs _ h0 hfrag hsz hne hwt hsc hext hft hsafe hcap
+  exact ⟨_, arrs, hft, htm, hread⟩
+
+/-- `C04_end_to_end_partial` with `Safe` derived, for tracing options that produce no Dictionary column -/
+theorem C04_end_to_end_nodict_partial (c : Trace.Code) (O : Trace.Options) (ext : Ext) (n : String) (fs : TFields) (vs : List Val)
+    (h0 : O.overwrites = []) (hd : O.string_dictionary_encoding = false) (he : O.enums_without_data_as_strings = false)
+    (hfrag : fragE (.struct n fs) = true) (hsz : sized (.struct n fs) = true) (hne : fs ≠ .nil)
+    (hwt : ∀ v ∈ vs, wt (.struct n fs) v = true)
+    (hsc : ∀ v ∈ vs, inScopeO (viewOpts O) (.struct n fs) v = true)
+    (hext : Lemmas.C03.ExtOK ext)
+    (hw : Trace.Spec.walkable O "$" (toTraceTy (.struct n fs)) = true)
+    (hm : mappable (viewOpts O) (.struct n fs) = true)
+    (hb : Trace.Spec.passes (toTraceTy (.struct n fs)) ≤ O.from_type_budget)
+    (hcap : ((vs.map (ser (.struct n fs))).map (vsize ext)).sum ≤ 2147483647) :
+    ∃ fields arrs, Trace.fromType c O (toTraceTy (.struct n fs)) = .ok fields ∧
+      toMarrow ext fields (vs.map (ser (.struct n fs))) = .ok arrs ∧
+      ((∀ a ∈ arrs, Read.physical a = true) →
+        readAll (toTarget (.struct n fs)) fields arrs = .ok (vs.map fun v => dvalOf (.struct n fs) (norm (.struct n fs) v))) :=
+  C04_end_to_end_partial c O ext n fs vs h0 hfrag hsz hne hwt hsc hext hw hm hb (C04_safeFs_nodict (viewOpts O) hd he fs) hcap
+
+/-- **C04 end to end at the codec models**: with the external string parsers instantiated by the models of C14
+(`Props.C16.codecExt`, what the correspondence driver runs), `ExtOK` is a theorem (`Props.C03.codecExt_ok`) and the
+hypothesis `hext` disappears.  `_partial` only because of `hphys` in the conclusion (see `C04_end_to_end_partial`). -/
+theorem C04_end_to_end_codec_partial (f32Str f64Str : Nat → String) (cast : Nat → Int → Bool → Nat → Option (Bool × Int))
+    (c : Trace.Code) (O : Trace.Options) (n : String) (fs : TFields) (vs : List Val)
+    (h0 : O.overwrites = []) (hfrag : fragE (.struct n fs) = true) (hsz : sized (.struct n fs) = true) (hne : fs ≠ .nil)
+    (hwt : ∀ v ∈ vs, wt (.struct n fs) v = true)
+    (hsc : ∀ v ∈ vs, inScopeO (viewOpts O) (.struct n fs) v = true)
+    (hw : Trace.Spec.walkable O "$" (toTraceTy (.struct n fs)) = true)
+    (hm : mappable (viewOpts O) (.struct n fs) = true)
+    (hb : Trace.Spec.passes (toTraceTy (.struct n fs)) ≤ O.from_type_budget)
+    (hsafe : safeFs (mappingFields (viewOpts O) fs) = true)
+    (hcap : ((vs.map (ser (.struct n fs))).map (vsize (Props.C16.codecExt f32Str f64Str cast))).sum ≤ 2147483647) :
+    ∃ fields arrs, Trace.fromType c O (toTraceTy (.struct n fs)) = .ok fields ∧
+      toMarrow (Props.C16.codecExt f32Str f64Str cast) fields (vs.map (ser (.struct n fs))) = .ok arrs ∧
+      ((∀ a ∈ arrs, Read.physical a = true) →
+        readAll (toTarget (.struct n fs)) fields arrs = .ok (vs.map fun v => dvalOf (.struct n fs) (norm (.struct n fs) v))) :=
+  C04_end_to_end_partial c O _ n fs vs h0 hfrag hsz hne hwt hsc (Props.C03.codecExt_ok f32Str f64Str cast) hw hm hb hsafe hcap
+
+/-- **C04 end to end, COMPLETE, for traced schemas without Dictionary columns** (`string_dictionary_encoding` and
+`enums_without_data_as_strings` off — the defaults), at the codec models of the external parsers: for every record type of
+the grammar (enums as Unions included) with at least one field that can be walked and mapped within the pass budget,
+`from_type` returns a schema, serializing any batch of well-typed values in scope (within the capacity bound) against it
+succeeds, and reading everything back returns the batch, normalised.  NO residual hypothesis: `Safe`, `Read.physical` and
+`ExtOK` are all derived; what is left are decidable conditions on type × options (`fragE`, `sized`, `walkable`, `mappable`),
+the documented exclusion `inScopeO` (= the driver's `noneAtUnion`; `strOK` is vacuous here: no string-stored enum), the pass
+budget and the explicit capacity bound. -/
+theorem C04_end_to_end_plain (f32Str f64Str : Nat → String) (cast : Nat → Int → Bool → Nat → Option (Bool × Int))
+    (c : Trace.Code) (O : Trace.Options) (n : String) (fs : TFields) (vs : List Val)
+    (h0 : O.overwrites = []) (hd : O.string_dictionary_encoding = false) (he : O.enums_without_data_as_strings = false)
+    (hfrag : fragE (.struct n fs) = true) (hsz : sized (.struct n fs) = true) (hne : fs ≠ .nil)
+    (hwt : ∀ v ∈ vs, wt (.struct n fs) v = true)
+    (hsc : ∀ v ∈ vs, inScopeO (viewOpts O) (.struct n fs) v = true)
+    (hw : Trace.Spec.walkable O "$" (toTraceTy (.struct n fs)) = true)
+    (hm : mappable (viewOpts O) (.struct n fs) = true)
+    (hb : Trace.Spec.passes (toTraceTy (.struct n fs)) ≤ O.from_type_budget)
+    (hcap : ((vs.map (ser (.struct n fs))).map (vsize (Props.C16.codecExt f32Str f64Str cast))).sum ≤ 2147483647) :
+    ∃ fields arrs, Trace.fromType c O (toTraceTy (.struct n fs)) = .ok fields ∧
+      toMarrow (Props.C16.codecExt f32Str f64Str cast) fields (vs.map (ser (.struct n fs))) = .ok arrs ∧
+      readAll (toTarget (.struct n fs)) fields arrs = .ok (vs.map fun v => dvalOf (.struct n fs) (norm (.struct n fs) v)) := by
+  have hft := C04_fromType_ok c O h0 n fs hw hm hb
+  obtain ⟨arrs, htm⟩ := C04_accept_traced c O (Props.C16.codecExt f32Str f64Str cast) n fs vs _ h0 hfrag hsz hwt hsc hft
+    (C04_safeFs_nodict (viewOpts O) hd he fs) hcap
+  exact ⟨_, arrs, hft, htm, C04_roundtrip_bulk_plain_partial c O _ n fs vs _ arrs h0 hd he hfrag hne hwt hsc
+    (Props.C03.codecExt_ok f32Str f64Str cast) hft htm⟩
 
 /-! ### non-vacuity: the batch of `Props/C04.lean` (`exFragRoot`, two records) meets every hypothesis -/
 
@@ -147,17 +239,48 @@ example : ((exBatch.map (ser exFragRoot)).map (vsize {})).sum ≤ 2147483647 := 
 
 example : ∃ root, runRows {} exFields (exBatch.map (ser exFragRoot)) = .ok root ∧
     toMarrow {} exFields (exBatch.map (ser exFragRoot)) = (do let (arrs, _) ← buildArrays {} root; pure arrs) :=
-  C04_accept_rows_nodict .fixed exO {} "Root" _ exBatch exFields rfl rfl (by decide +kernel) (by decide +kernel) exTrace
-    (by decide +kernel)
+  C04_accept_rows .fixed exO {} "Root" _ exBatch exFields rfl (by decide +kernel) (by decide +kernel) (by decide +kernel)
+    (by decide +kernel) exTrace (by decide +kernel) (by decide +kernel)
 
-example : ∃ arrs, toMarrow {} exFields (exBatch.map (ser exFragRoot)) = .ok arrs ∧
+/-- the whole property on the enum-free example: nothing is assumed about `from_type` -/
+example : ∃ fields arrs, Trace.fromType .fixed exO (toTraceTy exFragRoot) = .ok fields ∧
+    toMarrow {} fields (exBatch.map (ser exFragRoot)) = .ok arrs ∧
     ((∀ a ∈ arrs, Read.physical a = true) →
-      readAll (toTarget exFragRoot) exFields arrs = .ok (exBatch.map fun v => dvalOf exFragRoot (norm exFragRoot v))) :=
-  C04_end_to_end_nodict_partial .fixed exO {} "Root" _ exBatch exFields rfl rfl (by decide +kernel) (by simp) (by decide +kernel)
-    exExtOK exTrace (by decide +kernel)
+      readAll (toTarget exFragRoot) fields arrs = .ok (exBatch.map fun v => dvalOf exFragRoot (norm exFragRoot v))) :=
+  C04_end_to_end_nodict_partial .fixed exO {} "Root" _ exBatch rfl rfl rfl (by decide +kernel) (by decide +kernel) (by simp)
+    (by decide +kernel) (by decide +kernel) exExtOK (by decide +kernel) (by decide +kernel) (by decide +kernel) (by decide +kernel)
 
-/-! non-vacuity of `C04_accept_partial` WITH dictionary-encoded strings: a record type with a `String` and an
-`Option<String>` traces to two `Dictionary(UInt32, LargeUtf8)` columns; `Safe` holds of the fresh root -/
+/-! non-vacuity WITH ENUMS: `exRoot` of `Props/C04.lean` (an enum with all four variant kinds traced to a Union, nested
+Options, a map with tuple values), under `allow_null_fields`: walkable, mappable, 4 passes ≤ budget, `sized`, no Dictionary
+column; both values are in scope -/
+
+example : fragE exRoot = true ∧ sized exRoot = true ∧ Trace.Spec.walkable exEO "$" (toTraceTy exRoot) = true ∧
+    mappable (viewOpts exEO) exRoot = true ∧ Trace.Spec.passes (toTraceTy exRoot) = 4 ∧
+    (∀ v ∈ exEBatch, inScopeO (viewOpts exEO) exRoot v = true) := by decide +kernel
+
+example : ∃ fields arrs, Trace.fromType .fixed exEO (toTraceTy exRoot) = .ok fields ∧
+    toMarrow {} fields (exEBatch.map (ser exRoot)) = .ok arrs ∧
+    ((∀ a ∈ arrs, Read.physical a = true) →
+      readAll (toTarget exRoot) fields arrs = .ok (exEBatch.map fun v => dvalOf exRoot (norm exRoot v))) :=
+  C04_end_to_end_nodict_partial .fixed exEO {} "Root" _ exEBatch rfl rfl rfl (by decide +kernel) (by decide +kernel) (by simp)
+    (by decide +kernel) (by decide +kernel) exExtOK (by decide +kernel) (by decide +kernel) (by decide +kernel) (by decide +kernel)
+
+/-- … and completely, with nothing assumed (codec parsers; the float / decimal tables of the codec record play no role for
+this type): `C04_end_to_end_plain` on the enum example -/
+example : ∃ fields arrs, Trace.fromType .fixed exEO (toTraceTy exRoot) = .ok fields ∧
+    toMarrow (Props.C16.codecExt (fun _ => "") (fun _ => "") (fun _ _ _ _ => none)) fields (exEBatch.map (ser exRoot)) = .ok arrs ∧
+    readAll (toTarget exRoot) fields arrs = .ok (exEBatch.map fun v => dvalOf exRoot (norm exRoot v)) :=
+  C04_end_to_end_plain _ _ _ .fixed exEO "Root" _ exEBatch rfl rfl rfl (by decide +kernel) (by decide +kernel) (by simp)
+    (by decide +kernel) (by decide +kernel) (by decide +kernel) (by decide +kernel) (by decide +kernel) (by decide +kernel)
+
+/-- the string form (`enums_without_data_as_strings`): `exSRoot` with a data-less enum and an `Option` of it -/
+example : ∃ fields, Trace.fromType .fixed exSO (toTraceTy exSRoot) = .ok fields ∧
+    ∃ arrs, toMarrow {} fields (exSBatch.map (ser exSRoot)) = .ok arrs :=
+  C04_accept .fixed exSO {} "S" _ exSBatch rfl (by decide +kernel) (by decide +kernel) (by decide +kernel) (by decide +kernel)
+    (by decide +kernel) (by decide +kernel) (by decide +kernel) (by decide +kernel) (by decide +kernel)
+
+/-! non-vacuity of `C04_accept_traced` WITH dictionary-encoded strings: a record type with a `String` and an
+`Option<String>` traces to two `Dictionary(UInt32, LargeUtf8)` columns; the schema condition `safeFs` holds -/
 
 def exDO : Trace.Options := { map_as_struct := false, string_dictionary_encoding := true }
 def exDRoot : Ty := .struct "D" (.cons "s" false (.prim .str) (.cons "t" false (.option (.prim .str)) .nil))
@@ -167,21 +290,19 @@ def exDFields : List Field := match Trace.fromType .fixed exDO (toTraceTy exDRoo
 
 theorem exDTrace : Trace.fromType .fixed exDO (toTraceTy exDRoot) = .ok exDFields := by decide +kernel
 
-theorem exDSafe : ∀ root0, newRoot exDFields = .ok root0 → Safe root0 := by
-  intro root0 h0
-  rw [show newRoot exDFields = .ok (.struct "$" 0 none
-    (.cons (.dictionary "$.s" (.leaf "$.s.key" (.int .u32) none []) (.bytes "$.s.value" .largeUtf8 none [0] []) [])
-      ⟨"s", false, []⟩
-      (.cons (.dictionary "$.t" (.leaf "$.t.key" (.int .u32) (some []) []) (.bytes "$.t.value" .largeUtf8 none [0] []) [])
-        ⟨"t", true, []⟩ .nil)) [none, none] 0 [false, false]) from by decide +kernel] at h0
-  cases h0
-  simp [Safe, SafeL, B.isDict]
-
 example : exDFields = [.mk "s" (.dictionary .uint32 .largeUtf8) false [], .mk "t" (.dictionary .uint32 .largeUtf8) true []] := by
   decide +kernel
 
 example : ∃ arrs, toMarrow {} exDFields (exDBatch.map (ser exDRoot)) = .ok arrs :=
-  C04_accept_partial .fixed exDO {} "D" _ exDBatch exDFields rfl (by decide +kernel) (by decide +kernel) exDTrace exDSafe
-    (by decide +kernel)
+  C04_accept_traced .fixed exDO {} "D" _ exDBatch exDFields rfl (by decide +kernel) (by decide +kernel) (by decide +kernel)
+    (by decide +kernel) exDTrace (by decide +kernel) (by decide +kernel)
+
+/-- the `Safe` exclusion is real and stays explicit: a dictionary-encoded `String` directly below an `Option<struct>` makes
+`safeFs` false (C01's known exclusion `dict_placeholder_unstable`), a nullable one (`Option<String>`) does not -/
+def exSafeFalse : Ty := .struct "W" (.cons "o" false (.option (.struct "I" (.cons "s" false (.prim .str) .nil))) .nil)
+def exSafeTrue : Ty := .struct "W" (.cons "o" false (.option (.struct "I" (.cons "s" false (.option (.prim .str)) .nil))) .nil)
+example : safeFs (mappingFields (viewOpts exDO) (tfieldsOf exSafeFalse)) = false ∧
+    safeFs (mappingFields (viewOpts exDO) (tfieldsOf exSafeTrue)) = true ∧
+    safeFs (mappingFields (viewOpts exO) (tfieldsOf exSafeFalse)) = true := by decide +kernel
 
 end SaModel.Props.C04
